@@ -58,6 +58,7 @@ class ModbusDevice:
         self.drop_at = set()
         self.mbap_length = 'correct'
         self.refuse_connect_at = set()
+        self.reject_at = {}    # request index -> Modbus exception code answered instead of executing the request
         self.kern = None
         self.connects = []
         self.sent = []
@@ -110,7 +111,8 @@ class ModbusDevice:
             return
         if len(self.log) - 1 in self.drop_at:
             return                      # transient loss of exactly this request (fault injection by request index)
-        pdu = self.pdu(rq)
+        code = self.reject_at.get(len(self.log) - 1)
+        pdu = bytes([rq['fn'] | 0x80, code]) if code else self.pdu(rq)
         if sock.kind == 'tcp':
             f = wire.mbap(struct.pack('>H', rq['tx']), rq['unit'], pdu)
             if self.mbap_length != 'correct':
